@@ -19,19 +19,17 @@ logger = logging.getLogger("ncclient.capabilities")
 
 
 def _abbreviate(uri):
-    if uri.startswith("urn:ietf:params") and ":netconf:" in uri:
-        splitted = uri.split(":")
-        if ":capability:" in uri:
-            if uri.startswith("urn:ietf:params:xml:ns:netconf"):
-                name, version = splitted[7], splitted[8]
-            else:
-                name, version = splitted[5], splitted[6]
+    splitted = uri.split(":")
+    for prefix in (["urn", "ietf", "params", "netconf"],
+                   ["urn", "ietf", "params", "xml", "ns", "netconf"]):
+        rest = splitted[len(prefix):]
+        if splitted[:len(prefix)] != prefix:
+            continue
+        if len(rest) >= 3 and rest[0] == "capability":
+            name, version = rest[1], rest[2]
             return [ ":" + name, ":" + name + ":" + version ]
-        elif ":base:" in uri:
-            if uri.startswith("urn:ietf:params:xml:ns:netconf"):
-                return [ ":base", ":base" + ":" + splitted[7] ]
-            else:
-                return [ ":base", ":base" + ":" + splitted[5] ]
+        elif len(rest) >= 2 and rest[0] == "base":
+            return [ ":base", ":base" + ":" + rest[1] ]
     return []
 
 def schemes(url_uri):
